@@ -9,12 +9,14 @@ def run(c):
               "byteSize / buildRequest+encode decision and counter compared; wide cases (70 long-named topics) push the wire size over MaxRequestSize; "
               "(b) real AsyncProducer against a mock broker with response latency: every produce request measured (messages, per-partition key+value "
               "bytes, wire length), every message's fate compared with the dispatcher model; (c) is a buffered message flushed with no further input "
-              "(no trigger / timer / count / bytes reached or not). Non-trivial: > 10 operations / a request with a multi-message batch / every flush case")
+              "(no trigger / timer / count / bytes reached or not); (d) steered two-broker scripts where a NOT_LEADER response drops partitions from the "
+              "waiting buffer; (e) local trace validation: every broker worker of the runs in (b)-(d) is logged at the hook points (event, bufferCount, "
+              "bufferBytes, timer armed/fired, needsRetry; `output` with the bp.iter point) and replayed step by step through the model. Non-trivial: > 10 operations / a request with a multi-message batch / every flush case")
     c.trust("correspondence harness go/harness/cmd/c16corr + shim go/shims/verif_c16.go (message construction, request summarising, re-encoding of received requests to measure the wire length)")
     c.trust("Coq 8.16.1 kernel + vm_compute (evaluation of the model on the harness cases)")
     c.assume("Encoder contract: Length() = len(Encode()); sizes are non-negative")
     c.assume("time is abstract: the flush timer is an event; 'on time' is enabledness of the hand-off (observed as: the request arrives with no further input)")
-    c.assume("the broker worker's retry bookkeeping (needsRetry) is an oracle input of the step function; idempotent epoch roll-over is not modelled")
+    c.assume("the broker worker's retry bookkeeping (needsRetry) is an oracle input of the step function, read from the worker's state at the hook points; idempotent epoch roll-over is not modelled")
     if not c.coq_make():
         return
     c.coq_properties()
